@@ -26,6 +26,14 @@ def parseRef (t : String) : Option Nat :=
 def parseOptRef (t : String) : Option (Option Nat) :=
   if t == "none" || t == "zero" then some none else (parseRef t).map some
 
+/-- a scalar may carry a suffix `@f|@n|@a|@i` saying how the adapter hands it to the real code (Python float,
+`numpy.float64`, 0-d `numpy.ndarray`, `int`); the setters and operators coerce with `float()`, so the model reads
+the value only -/
+def parseNum (t : String) : Option Rat :=
+  match splitOn1 t '@' with
+  | v :: _ => parseRat? v
+  | [] => none
+
 def parseRats (t : String) : Option (List Rat) := (splitComma t).mapM parseRat?
 
 /-- sparse vector `i:val;i:val` (or `-`) of the given dense length -/
@@ -89,32 +97,32 @@ def parseOp (s : S) (line : String) : Option (Op Rat) :=
   match splitWs line with
   | ["new", ph, b, c, x, v] => do
     let ph ← ph.toNat?
-    some (.new ph (← parseBasis b) (← c.toNat?) (← parseRat? x) (← parseSparse v (nrows ph * s.nchem)))
-  | ["empty", b, c, x] => do some (.empty (← parseBasis b) (← c.toNat?) (← parseRat? x))
+    some (.new ph (← parseBasis b) (← c.toNat?) (← parseNum x) (← parseSparse v (nrows ph * s.nchem)))
+  | ["empty", b, c, x] => do some (.empty (← parseBasis b) (← c.toNat?) (← parseNum x))
   | ["copy", a, b] => do some (.copy (← parseRef a) (← parseBArg b))
   | ["add", a, b] => do some (.add (← parseRef a) (← parseOptRef b))
   | ["radd", a, b] => do some (.add (← parseRef a) (← parseOptRef b))
   | ["sub", a, b] => do some (.sub (← parseRef a) (← parseOptRef b))
   | ["iadd", a, b] => do some (.iadd (← parseRef a) (← parseOptRef b))
   | ["isub", a, b] => do some (.isub (← parseRef a) (← parseOptRef b))
-  | ["mul", a, k] => do some (.mul (← parseRef a) (← parseRat? k))
-  | ["rmul", a, k] => do some (.mul (← parseRef a) (← parseRat? k))
-  | ["div", a, k] => do some (.div (← parseRef a) (← parseRat? k))
+  | ["mul", a, k] => do some (.mul (← parseRef a) (← parseNum k))
+  | ["rmul", a, k] => do some (.mul (← parseRef a) (← parseNum k))
+  | ["div", a, k] => do some (.div (← parseRef a) (← parseNum k))
   | ["neg", a] => do some (.neg (← parseRef a))
-  | ["imul", a, k] => do some (.imul (← parseRef a) (← parseRat? k))
-  | ["idiv", a, k] => do some (.idiv (← parseRef a) (← parseRat? k))
+  | ["imul", a, k] => do some (.imul (← parseRef a) (← parseNum k))
+  | ["idiv", a, k] => do some (.idiv (← parseRef a) (← parseNum k))
   | ["back", a, c, x] => do
     let c ← if c == "-" then some none else c.toNat?.map some
-    let x ← if x == "-" then some none else (parseRat? x).map some
+    let x ← if x == "-" then some none else (parseNum x).map some
     some (.backwards (← parseRef a) c x)
   | ["setbasis", a, b] => do some (.setBasis (← parseRef a) (← parseBArg b))
-  | ["setx", a, x] => do some (.setX (← parseRef a) (← parseRat? x))
+  | ["setx", a, x] => do some (.setX (← parseRef a) (← parseNum x))
   | ["mkset", ms] => do some (.mkSet false (← (splitComma ms).mapM parseRef))
   | ["mkseries", ms] => do some (.mkSet true (← (splitComma ms).mapM parseRef))
   | ["setcopy", t, b] => do some (.setCopy (← parseRef t) (← parseBArg b))
   | ["slice", t, i, j] => do some (.slice (← parseRef t) (← i.toNat?) (← j.toNat?))
   | ["item", t, i] => do some (.item (← parseRef t) (← i.toNat?))
-  | ["setsx", t, i, x] => do some (.setSetX (← parseRef t) (← i.toNat?) (← parseRat? x))
+  | ["setsx", t, i, x] => do some (.setSetX (← parseRef t) (← i.toNat?) (← parseNum x))
   | ["reset", a, p] => do some (.reset (← parseRef a) (← p.toNat?))
   | ["reduce", t, order] => do
     some (.reduce (← parseRef t) (← (splitComma (if order == "-" then "" else order)).mapM (·.toNat?)))
